@@ -121,4 +121,9 @@ def tapply [DecidableEq K] (cd : KVCodec K V) (m : K â†’ Option V) : TyOp K V â†
 def tspec [DecidableEq K] (cd : KVCodec K V) (ops : List (TyOp K V)) : K â†’ Option V :=
   ops.foldl (tapply cd) (fun _ => none)
 
+/-- The set flavour (`ads.Set[IdentifierType, K]` = the map with `V = types.Empty`): `types.Empty.Bytes` encodes to the
+empty slice, `types.EmptyFromBytes` decodes anything to `Void` consuming 0 bytes; `Add(k)` is `Set(k, Void)`. -/
+def setCodec (kenc : K â†’ Option Key) (kdec : Key â†’ Option K) : KVCodec K Unit :=
+  { kenc := kenc, kdec := kdec, venc := fun _ => some [], vdec := fun _ => some ((), 0) }
+
 end Hive.Ads
